@@ -451,6 +451,15 @@ pub fn cases_for(plan: &Plan, seed: u64) -> (Vec<(String, History)>, usize) {
         if plan.compare != Compare::TwoRun && i % 5 == 4 {
             prof.entangle_pct = 60;
         }
+        // wide: many clients on one server (per-client caches, tables keyed by client, eviction)
+        if i % 16 == 9 {
+            let two = plan.compare == Compare::TwoRun;
+            prof.min_clients = if two { 10 } else { 20 };
+            prof.max_clients = if two { 14 } else { 40 };
+            prof.min_ops = if two { 120 } else { 200 };
+            prof.max_ops = if two { 160 } else { 320 };
+            prof.valid_add_pct = prof.valid_add_pct.max(70);
+        }
         cases.push(("random".into(), generate(hseed, &prof)));
     }
     for i in 0..plan.long.0 {
